@@ -46,7 +46,10 @@ pub fn drive(
             }
         }
         for inp in inputs {
+            out.flush().unwrap();
+            watchdog_arm(comp, &inp);
             let (o, sig, oracle) = exec(&inp);
+            watchdog_disarm();
             let mut input = vec![comp];
             input.extend(inp);
             emit(out, &Case { input, output: o, sig, oracle });
@@ -57,7 +60,10 @@ pub fn drive(
     for i in 0..count {
         let mut rr = r.fork();
         for inp in gen(&mut rr, i) {
+            out.flush().unwrap();
+            watchdog_arm(comp, &inp);
             let (o, sig, oracle) = exec(&inp);
+            watchdog_disarm();
             let mut input = vec![comp];
             input.extend(inp);
             emit(out, &Case { input, output: o, sig, oracle });
@@ -65,7 +71,43 @@ pub fn drive(
     }
 }
 
+static WATCHDOG: std::sync::Mutex<Option<(std::time::Instant, String)>> = std::sync::Mutex::new(None);
+
+/// Wall-clock watchdog: a case that does not finish (a livelock never becomes idle under the paused
+/// clock) is reported as an oracle failure with its input, and the process ends.
+fn watchdog_arm(comp: u128, inp: &[u128]) {
+    let mut line = comp.to_string();
+    for x in inp {
+        line.push(' ');
+        line.push_str(&x.to_string());
+    }
+    *WATCHDOG.lock().unwrap() = Some((std::time::Instant::now(), line));
+}
+fn watchdog_disarm() {
+    *WATCHDOG.lock().unwrap() = None;
+}
+fn watchdog_start() {
+    let limit = std::env::var("VH_CASE_TIMEOUT").ok().and_then(|s| s.parse().ok()).unwrap_or(60u64);
+    std::thread::spawn(move || loop {
+        std::thread::sleep(std::time::Duration::from_millis(500));
+        let g = WATCHDOG.lock().unwrap();
+        if let Some((t, line)) = &*g {
+            if t.elapsed().as_secs() >= limit {
+                // stdout is locked by the main thread for the whole run: write to the descriptor directly
+                // (the main thread flushes its buffer before every case)
+                use std::os::fd::FromRawFd;
+                let mut f = unsafe { std::fs::File::from_raw_fd(1) };
+                let _ = writeln!(f, "{}\t97\twatchdog:timeout\tFAIL: case did not finish within {} s of wall-clock time (livelock or hang)", line, limit);
+                let _ = f.flush();
+                std::mem::forget(f);
+                std::process::exit(0);
+            }
+        }
+    });
+}
+
 fn main() {
+    watchdog_start();
     let args: Vec<String> = std::env::args().collect();
     if args.len() < 4 {
         eprintln!("usage: vh <component> <seed> <count> [args]");
